@@ -261,11 +261,14 @@ func scenario(param string) vsched.Scenario {
 
 func family(c *harness.Check) []string {
 	var out []string
-	for _, sv := range []string{"none", "ss2022", "socks5", "direct"} {
+	for _, sv := range []string{"none", "ss2022", "ss2022mu", "socks5", "direct"} {
 		for _, b := range []string{"no", "sendmmsg"} {
 			for _, k := range []string{"evict", "timeoutRace", "stopBusy", "stopInit", "reject", "sendErr", "sendErrBusy", "twoStop", "port0", "evictTwo"} {
 				if !c.Thorough() && (sv == "socks5" || sv == "direct") && (k == "timeoutRace" || k == "twoStop" || k == "reject") {
 					continue
+				}
+				if !c.Thorough() && sv == "ss2022mu" && k != "evictTwo" && k != "stopBusy" && k != "sendErr" && k != "twoStop" {
+					continue // multi-user server: the kinds with two sessions or in-flight work
 				}
 				out = append(out, spec{sv, b, k}.String())
 			}
